@@ -178,6 +178,18 @@ Definition hk (k : pv) : M unit := if hashable k then ret tt else raise TypeErro
 Definition swallow_key (m : M unit) : M unit :=
   catch m (fun e => match e with KeyError => ret tt | _ => raise e end).
 
+(* asyncio.CancelledError: since Python 3.8 a BaseException that is NOT an Exception, so `except Exception`
+   does not catch it.  Base.PyVal's [exn] (shared by all models) has no name for it; in this model the name
+   BadNamespaceError - which no manager code can raise - stands for it, in fault scripts and in results.
+   Under the threaded manager the same token stands for any BaseException outside Exception. *)
+Definition Cancelled : exn := BadNamespaceError.
+Definition is_cancel (e : exn) : bool := match e with BadNamespaceError => true | _ => false end.
+(* try: m  except asyncio.CancelledError: pass *)
+Definition absorb_cancel (m : M unit) : M unit :=
+  catch m (fun e => if is_cancel e then ret tt else raise e).
+(* except Exception: logger.exception(...)   -- anything else keeps propagating *)
+Definition log_exc (e : exn) : M unit := if is_cancel e then raise e else say (ELogExc e).
+
 (* ------------------------------------------------------------------ *)
 (* base_manager.py / manager.py                                        *)
 (* ------------------------------------------------------------------ *)
@@ -400,9 +412,24 @@ Definition cb_msg (h a b c args : pv) : pv :=
   PDict [(PStr k_method, PStr k_callback); (PStr k_host_id, h); (PStr k_sid, a);
          (PStr k_namespace, b); (PStr k_id, c); (PStr k_args, args)].
 
+(* An application callback registered with emit(..., callback=cb).  The harness registers callback number n as a
+   coroutine function when the manager is the asyncio one and n is odd, as a plain function otherwise.
+   AsyncManager.trigger_callback:   ret = callback( *data)
+                                    if asyncio.iscoroutine(ret):
+                                        try: await ret
+                                        except asyncio.CancelledError: pass
+   so a CancelledError raised inside a coroutine callback (it awaits a task the application cancelled) is
+   absorbed, one raised by a plain function (job.result() of a cancelled future) is not; Manager.trigger_callback
+   just calls the callback. *)
+Definition cb_is_coro (async : bool) (n : N) : bool := async && N.odd n.
+Definition app_callback (async : bool) (n : N) (l : list pv) : M unit :=
+  say (ECallback n l) >>
+  if cb_is_coro async n then absorb_cancel fault else fault.
+
 (* Manager.trigger_callback, with the callbacks it may invoke:
-   an application callback, or partial(_return_callback, host, sid, namespace, id) *)
-Fixpoint trigger (fuel : nat) (own : pv) (sid id args : pv) : M unit :=
+   an application callback, or partial(self._return_callback, host, sid, namespace, id); under asyncio
+   _return_callback is a coroutine, awaited inside the same try/except CancelledError *)
+Fixpoint trigger (fuel : nat) (own : pv) (async : bool) (sid id args : pv) : M unit :=
   match fuel with
   | O => raise OracleMiss
   | S f =>
@@ -429,17 +456,18 @@ Fixpoint trigger (fuel : nat) (own : pv) (sid id args : pv) : M unit :=
           l <~ lift (py_star args) ;;                 (* callback( * data) *)
           match s with
           | Counter _ => raise TypeError              (* unreachable: a non-callable entry is never returned *)
-          | CbApp n => say (ECallback n l) >> fault
+          | CbApp n => app_callback async n l
           | CbRemote h a b c =>                        (* _return_callback(h, a, b, c, star l) *)
-              if py_eq h own then trigger f own a c (PTuple l)
-              else publish (cb_msg h a b c (PTuple l))
+              let r := if py_eq h own then trigger f own async a c (PTuple l)
+                       else publish (cb_msg h a b c (PTuple l)) in
+              if async then absorb_cancel r else r
           end
       end
   end.
 Definition cb_entries (m : mgr) : nat :=
   fold_left (fun n p => (n + List.length (snd p))%nat) (cbs m) O.
-Definition op_trigger (own sid id args : pv) : M unit :=
-  m <~ getst ;; trigger (S (cb_entries m)) own sid id args.
+Definition op_trigger (own : pv) (async : bool) (sid id args : pv) : M unit :=
+  m <~ getst ;; trigger (S (cb_entries m)) own async sid id args.
 
 (* the stub server's disconnect: records the call, then what Server.disconnect does to the
    manager when nothing fails in between (is_connected, pre_disconnect, disconnect) *)
@@ -488,10 +516,10 @@ Definition handle_emit (async : bool) (kv : list (pv * pv)) : M unit :=
   da <~ lift (dreq k_data kv) ;;
   op_emit async ev da (dget k_namespace kv) (dget k_room kv) (dget k_skip_sid kv) cb.
 
-Definition handle_callback (own : pv) (kv : list (pv * pv)) : M unit :=
+Definition handle_callback (own : pv) (async : bool) (kv : list (pv * pv)) : M unit :=
   if py_eq own (dget k_host_id kv) then
     match dreq k_sid kv, dreq k_id kv, dreq k_args kv with
-    | Ok sid, Ok id, Ok args => op_trigger own sid id args
+    | Ok sid, Ok id, Ok args => op_trigger own async sid id args
     | _, _, _ => ret tt                                  (* except KeyError: return *)
     end
   else ret tt.
@@ -514,7 +542,7 @@ Definition handle_close_room (kv : list (pv * pv)) : M unit :=
 
 (* the body of the inner try *)
 Definition dispatch (own : pv) (async : bool) (kv : list (pv * pv)) (meth : pv) : M unit :=
-  if py_eq meth (PStr k_callback) then handle_callback own kv
+  if py_eq meth (PStr k_callback) then handle_callback own async kv
   else if negb (py_eq (dget k_host_id kv) own) then
     if py_eq meth (PStr m_emit) then handle_emit async kv
     else if py_eq meth (PStr m_disconnect) then handle_disconnect kv
@@ -552,7 +580,7 @@ Definition body (own : pv) (async : bool) (m : pv) (pk js : option pv) : M unit 
     if c then
       meth <~ lift (py_getitem_method data) ;;          (* logger.debug(... data['method']) *)
       match data with
-      | PDict kv => catch (dispatch own async kv meth) (fun e => say (ELogExc e))
+      | PDict kv => catch (dispatch own async kv meth) log_exc
       | _ => ret tt
       end
     else ret tt
@@ -572,7 +600,7 @@ Definition run_item (own : pv) (async : bool) (s : mgr) (it : item) : mgr * list
   | IMsg m pk js fs =>
       match body own async m pk js (mkW s fs [] []) with (w, r) => finish w r end
   | IAck sid id args fs =>
-      match catch (op_trigger own sid id args) (fun e => say (ELogExc e)) (mkW s fs [] []) with
+      match catch (op_trigger own async sid id args) (fun e => say (ELogExc e)) (mkW s fs [] []) with
       | (w, _) => finish w (Ok tt)
       end
   | IRaise e => (s, [], Err e)
@@ -593,9 +621,13 @@ Fixpoint for_loop (own : pv) (async : bool) (s : mgr) (its : list item)
       end
   end.
 
-Inductive ending := Exited | OutOfFuel.
+Inductive ending :=
+| Exited                (* the iterator was exhausted: logger.error, break *)
+| OutOfFuel
+| Stopped.              (* a CancelledError reached the outer handler: asyncio `except asyncio.CancelledError: break`
+                           (silently, the rest of the channel is never read); threaded: the BaseException leaves _thread *)
 
-(* while True: try: for ...; logger.error; break  except Exception: logger.exception *)
+(* while True: try: for ...; logger.error; break  except CancelledError: break  except Exception: logger.exception *)
 Fixpoint while_loop (fuel : nat) (own : pv) (async : bool) (s : mgr) (its : list item)
   : mgr * list eff * ending :=
   match fuel with
@@ -604,6 +636,7 @@ Fixpoint while_loop (fuel : nat) (own : pv) (async : bool) (s : mgr) (its : list
       match for_loop own async s its with
       | (s', effs, None) => (s', EListen :: effs ++ [ELogErr], Exited)
       | (s', effs, Some (e, rest)) =>
+          if is_cancel e then (s', EListen :: effs, Stopped) else
           match while_loop f own async s' rest with
           | (s'', effs', r) => (s'', EListen :: effs ++ ELogExc e :: effs', r)
           end
@@ -628,6 +661,27 @@ Fixpoint run (own : pv) (async : bool) (s : mgr) (its : list item) : mgr * list 
       match step own async s it with
       | (s', e) => match run own async s' rest with (s'', es) => (s'', e :: es) end
       end
+  end.
+
+(* does the handling of this item end with a CancelledError that nothing absorbed (the listener then ends)? *)
+Definition cancels (own : pv) (async : bool) (s : mgr) (it : item) : bool :=
+  match run_item own async s it with
+  | (_, _, Err e) => is_cancel e
+  | _ => false
+  end.
+(* no item of the channel does, each taken in the state the fold reaches it in *)
+Fixpoint no_cancel (own : pv) (async : bool) (s : mgr) (its : list item) : bool :=
+  match its with
+  | [] => true
+  | it :: rest => negb (cancels own async s it) && no_cancel own async (fst (step own async s it)) rest
+  end.
+(* the fault scripts only raise Exception subclasses *)
+Definition ordinary_script (fs : list (option exn)) : bool :=
+  forallb (fun f => match f with Some e => negb (is_cancel e) | None => true end) fs.
+Definition ordinary_item (it : item) : bool :=
+  match it with
+  | IMsg _ _ _ fs | IAck _ _ _ fs => ordinary_script fs
+  | IRaise e => negb (is_cancel e)
   end.
 
 (* what an application or client can see of a run *)
